@@ -710,13 +710,24 @@ pub fn build(quick: bool) -> Check {
     let deep = ChunkFamily::new("deep-pipeline", deep_pipeline(quick));
     let ltm = ChunkFamily::new("large-then-many", large_then_many(quick));
     let mut walks: Vec<Box<dyn Family>> = Vec::new();
+    // long sessions of every command kind under small and odd read sizes
+    {
+        use super::registry::RunOpts;
+        let reads = |n: usize| RunOpts { uniform_read: n, ..RunOpts::default() };
+        walks.push(Box::new(super::soak::Soak {
+            label: "read-sizes",
+            lens: super::soak::lens(quick),
+            mixes: super::soak::MIXES.to_vec(),
+            opts: vec![("reads of 1 byte", reads(1)), ("reads of at most 5 bytes", reads(5)), ("reads of at most 61 bytes", reads(61)), ("reads of at most 4093 bytes", reads(4093)), ("whole reads", reads(usize::MAX))],
+        }));
+    }
     for (d, c) in if quick { vec![(5, 1), (3, 2)] } else { vec![(6, 1), (4, 2), (3, 3)] } {
         walks.push(Box::new(ChunkFamily::new(&format!("command-kind-walks-depth-{}-cuts-{}", d, c), kind_walks(d, c))));
     }
     Check {
         id: "C01",
         level: "model_checking",
-        rule: "every execution is one complete run of the real run_on over a scripted transport; schedules are sets of cut positions no read() may cross (all 2^n sets for streams of <= 17 (quick) / 23 (thorough) command bytes; all sets of <= 2-3 cuts for longer streams; <= 1-2 cuts around fragment headers for 16-32 MiB payloads; single-packet payloads around 2^15, 2^16, 2^17, 2^20 and up to 3 MB with <= 1-2 cuts; 300/1200 pipelined commands with a cut at (every fifth /) every position and under uniform read sizes 1..4097; a command of 70 KB..1.1 MB (thorough 5 KB..9 MB) followed by 40 / 1000 small commands in the same burst with <= 1 (thorough 2) cuts around the end of the large command and the next headers; every single cut of H + 4 commands with ErrorKind::Interrupted returned once by each read (what reaches the shim must stay a byte-exact prefix); every history of 5 (thorough: 6) commands over PREPARE / long data / EXECUTE / CLOSE / two queries / PING as a well-behaved client encodes it, followed by a query, under every single cut behind the handshake, histories of 3 (4) under every pair of cuts (thorough: of 3 under every triple). Non-trivial = some read ends strictly inside a packet header or one read spans two messages.".into(),
+        rule: "every execution is one complete run of the real run_on over a scripted transport; schedules are sets of cut positions no read() may cross (all 2^n sets for streams of <= 17 (quick) / 23 (thorough) command bytes; all sets of <= 2-3 cuts for longer streams; <= 1-2 cuts around fragment headers for 16-32 MiB payloads; single-packet payloads around 2^15, 2^16, 2^17, 2^20 and up to 3 MB with <= 1-2 cuts; 300/1200 pipelined commands with a cut at (every fifth /) every position and under uniform read sizes 1..4097; a command of 70 KB..1.1 MB (thorough 5 KB..9 MB) followed by 40 / 1000 small commands in the same burst with <= 1 (thorough 2) cuts around the end of the large command and the next headers; every single cut of H + 4 commands with ErrorKind::Interrupted returned once by each read (what reaches the shim must stay a byte-exact prefix); every history of 5 (thorough: 6) commands over PREPARE / long data / EXECUTE / CLOSE / two queries / PING as a well-behaved client encodes it, followed by a query, under every single cut behind the handshake, histories of 3 (4) under every pair of cuts (thorough: of 3 under every triple). Long scripted sessions: 130..4099 (thorough: up to 131101) ordinary commands of every kind on one connection in up to six mixes (even, prepare/close churn with growing ids, executions, long-data chunks, unanswered commands, text and library-answered commands) under several client/transport behaviours (pipelined, request ids advancing by 7, lock-step, 1..4093-byte reads, 7/11-byte writes), generated by a fixed rule, kept valid with the registry model and judged on the complete trace (callbacks with arguments, result, strict decode of every reply with its sequence ids). Non-trivial = some read ends strictly inside a packet header or one read spans two messages.".into(),
         assumptions: vec![
             "1-byte reads over multi-megabyte payloads are not run (the implementation re-parses per read); they are covered exhaustively at small sizes".into(),
             "the oracle is the shim's callback log plus a strict client-side decode of all replies".into(),
@@ -729,7 +740,7 @@ pub fn build(quick: bool) -> Check {
             f.extend(walks);
             f
         },
-        required: vec!["interrupted_reads", "reads_ending_inside_a_header", "reads_spanning_two_messages", "executions_with_more_than_3_reads", "uniform_read_sizes"],
+        required: vec!["soak_sessions", "interrupted_reads", "reads_ending_inside_a_header", "reads_spanning_two_messages", "executions_with_more_than_3_reads", "uniform_read_sizes"],
     }
 }
 
